@@ -297,6 +297,8 @@ func TypeDefinitionArrayTypeArgument(t dsl.TypeDefinition) string {
 		return "np.void"
 	case *dsl.GenericTypeParameter:
 		return NumpyTypeParameterSyntax(t)
+	case *dsl.NamedType:
+		return TypeArrayTypeArgument(t.Type)
 	default:
 		return TypeDefinitionDTypeSyntax(t)
 	}
